@@ -69,9 +69,16 @@ def check(spec):
     fam = spec.get("fam") or treg.family(t)
     s, m, h = spec["seed"], spec["m"], spec["h"]
     inputs = [treg.make_input(fam, spec["key"] + i) for i in range(m)]
+    def _build():
+        if spec.get("late") and t["k"] == "compose" and len(t["m"]) >= 2:
+            # the composition is assembled step by step: the last member is appended to the public list after construction
+            tr = treg.build({"k": "compose", "m": t["m"][:-1]})
+            tr.transforms.append(treg.build(t["m"][-1]))
+            return tr
+        return treg.build(t)
     # instance A: built under G1, used h times before the seed is injected
     _set_globals(spec["g1"])
-    A = treg.build(t)
+    A = _build()
     if h:
         try:
             _run(A, inputs[:1] * h)
@@ -79,7 +86,20 @@ def check(spec):
             raise
     # instance B: built under G2
     _set_globals(spec["g2"])
-    B = treg.build(t)
+    B = _build()
+    keep_alive = None
+    if spec.get("b_via"):
+        # the second instance is a copy of a constructed one (what KDMultiViewWrapper, the factory and spawn-started workers do): it is
+        # the copy that gets the seed, the original stays around untouched
+        import copy
+        import pickle
+        keep_alive = B
+        try:
+            B = copy.deepcopy(keep_alive) if spec["b_via"] == "deepcopy" else pickle.loads(pickle.dumps(keep_alive))
+        except (pickle.PicklingError, AttributeError, TypeError) as e:
+            if spec["b_via"] == "deepcopy":
+                raise
+            B = keep_alive  # not picklable (local classes / lambdas inside third-party members): use the instance itself
     sig_name = "+".join(sorted(set(treg.leaf_names(t))))[:80]
     # optional strength history around the injection (same for both instances): the seed must still determine everything
     def _scale(f):
@@ -149,7 +169,27 @@ def _wrap(tstrat):
     return st.fixed_dictionaries({"t": tstrat, "key": st.integers(0, 400), "seed": st.integers(0, 2 ** 32 - 1),
                                   "m": st.integers(1, 5), "h": st.integers(0, 3), "g1": st.integers(0, 2 ** 31),
                                   "g2": st.integers(0, 2 ** 31), "pre_scale": st.sampled_from([None, None, 0.0, 0.5, 1.0]), "detour": st.sampled_from([None, 0.0, 0.0, 0.3]),
-                                  "post_scale": st.sampled_from([None, 1.0, 0.7])})
+                                  "post_scale": st.sampled_from([None, 1.0, 0.7]), "b_via": st.sampled_from([None, None, "deepcopy", "pickle"]),
+                                  "late": st.booleans()})
+
+
+@st.composite
+def with_plain(draw):
+    """compositions that mix library transforms with plain callables (torchvision transforms, lambdas), bare or wrapped by a
+    random-apply / scheduled / outer composition: the injected generator must reach every library member"""
+    inner = [draw(treg.img_composite(depth=1, allow_scheduled=False)) for _ in range(draw(st.integers(1, 2)))]
+    inner.insert(draw(st.integers(0, len(inner))), {"k": "plain"})
+    comp = {"k": "compose", "m": inner}
+    outer = draw(st.sampled_from(["none", "random_apply", "scheduled", "compose", "random_apply+scheduled"]))
+    if outer == "random_apply":
+        return {"k": "random_apply", "p": draw(st.sampled_from([0.5, 1.0])), "t": comp}
+    if outer == "scheduled":
+        return {"k": "scheduled", "t": comp}
+    if outer == "compose":
+        return {"k": "compose", "m": [comp, draw(treg.img_composite(depth=1, allow_scheduled=False))]}
+    if outer == "random_apply+scheduled":
+        return {"k": "scheduled", "t": {"k": "random_apply", "p": 1.0, "t": comp}}
+    return comp
 
 
 def _leaf_facet(name):
@@ -169,6 +209,9 @@ FACETS += [
     Facet("composites", check, strategy=lambda tier: _wrap(treg.img_composite(depth=3)),
           budget={"quick": 1200, "thorough": 20000}, shards={"quick": 6, "thorough": 16},
           min_nontrivial={"quick": 300, "thorough": 3000}, case_timeout=120),
+    Facet("composites-with-plain-members", check, strategy=lambda tier: _wrap(with_plain()),
+          budget={"quick": 400, "thorough": 6000}, shards={"quick": 4, "thorough": 8},
+          min_nontrivial={"quick": 100, "thorough": 1000}, case_timeout=120),
     Facet("pipelines", check,
           strategy=lambda tier: _wrap(st.sampled_from(sorted(treg.PIPELINES)).map(lambda n: {"k": "pipeline", "name": n})),
           budget={"quick": 150, "thorough": 1500}, shards={"quick": 2, "thorough": 6},
